@@ -24,7 +24,8 @@ func (p *Parser) parseMatchAgainst(matchFunc *ast.FunctionCall) (ast.Expression,
 
 	// Consume optional mode keywords until we hit )
 	mode := ""
-	for !p.isType(models.TokenTypeRParen) && !p.isType(models.TokenTypeEOF) {
+	// the mode words end at the closing parenthesis; a semicolon means it is missing
+	for !p.isType(models.TokenTypeRParen) && !p.isType(models.TokenTypeEOF) && !p.isType(models.TokenTypeSemicolon) {
 		mode += " " + p.currentToken.Literal
 		p.advance()
 	}
